@@ -64,6 +64,52 @@ Fixpoint owner_seq (ls : list (nat * option (list nat))) (e : nat) : option (lis
   | (_, None) :: t => owner_seq t e
   end.
 
+(* ---- the representation invariant: when does a heap of the pointer model represent an abstract state ---- *)
+
+(* the heap seen as functions: next / prev / list / Value field of cell j (nil / 0 outside the heap) *)
+Definition size (s : state) : nat := length (elems s).
+
+Definition proj {A} (g : elem -> A) (d : A) (s : state) (j : nat) : A :=
+  match nth_error (elems s) j with Some c => g c | None => d end.
+
+Definition nx := proj e_next None.
+Definition pv := proj e_prev None.
+Definition ow := proj e_list None.
+Definition vl := proj e_val 0%Z.
+
+
+(* a -> x1 -> ... -> xn -> b linked both ways; the list of a List is [chain root xs root] *)
+Fixpoint chain (nx pv : nat -> ptr) (a : nat) (xs : list nat) (b : nat) : Prop :=
+  match xs with
+  | [] => nx a = Some b /\ pv b = Some a
+  | x :: t => nx a = Some x /\ pv x = Some a /\ chain nx pv x t b
+  end.
+
+
+Definition alen (o : option (list nat)) : Z :=
+  match o with None => 0%Z | Some xs => Z.of_nat (length xs) end.
+Definition is_root (a : astate) (e : nat) : Prop := In e (map fst (a_lists a)).
+
+(* [Rep s a]: the heap s represents the abstract state a.
+   - every list record points to its sentinel cell and stores the length of its sequence;
+   - sentinels are distinct cells that belong to no list;
+   - a zero-value list has nil links in its sentinel;
+   - an initialised list is a chain sentinel -> xs -> sentinel linked both ways, xs has no
+     repetition, and exactly the members of xs have Element.list = this list;
+   - a cell that is in no list (removed, or never inserted) and is no sentinel has nil links. *)
+Record Rep (s : state) (a : astate) : Prop := {
+  R_vals : size s = length (a_vals a) /\ forall j, j < size s -> nth_error (a_vals a) j = Some (vl s j);
+  R_lsts : length (lsts s) = length (a_lists a) /\
+           forall l r o, nth_error (a_lists a) l = Some (r, o) -> nth_error (lsts s) l = Some (LRec r (alen o));
+  R_roots : NoDup (map fst (a_lists a)) /\ forall e, is_root a e -> e < size s /\ ow s e = None;
+  R_uninit : forall l r, nth_error (a_lists a) l = Some (r, None) -> nx s r = None /\ pv s r = None;
+  R_init : forall l r xs, nth_error (a_lists a) l = Some (r, Some xs) ->
+           chain (nx s) (pv s) r xs r /\ NoDup xs /\ forall e, In e xs -> ow s e = Some l;
+  R_own : forall e l, ow s e = Some l -> exists r xs, nth_error (a_lists a) l = Some (r, Some xs) /\ In e xs;
+  R_free : forall e, ow s e = None -> ~ is_root a e -> nx s e = None /\ pv s e = None
+}.
+
+
 (* ---- the operations ---- *)
 Definition sret (a : astate) (h : list nat) (p : ptr) : lout * astate * list nat :=
   (OPtr p, a, add_handle h p).
